@@ -180,6 +180,26 @@ func genMutants(repo string, files []string, ranges map[string][][2]int, max int
 			case *ast.DeferStmt:
 				counts["undefer"]++
 			}
+			if bl := stmtList(n); bl != nil {
+				if len(*bl) >= 2 {
+					counts["swap-stmt"] += len(*bl) - 1
+				}
+				for _, st := range *bl {
+					switch st.(type) {
+					case *ast.IncDecStmt, *ast.GoStmt, *ast.DeferStmt, *ast.SendStmt:
+						counts["del-stmt"]++
+					}
+					if _, ok := st.(*ast.GoStmt); ok {
+						counts["go-inline"]++
+					}
+				}
+			}
+			if _, ok := n.(*ast.IfStmt); ok {
+				counts["cond-true"]++
+			}
+			if be, ok := n.(*ast.BinaryExpr); ok && (be.Op == token.MUL || be.Op == token.QUO || be.Op == token.REM) {
+				counts["mul-div"]++
+			}
 			if be, ok := n.(*ast.BinaryExpr); ok && (be.Op == token.LAND || be.Op == token.LOR) {
 				counts["logic"]++
 			}
@@ -334,6 +354,49 @@ func genMutants(repo string, files []string, ranges map[string][][2]int, max int
 							undefer = x
 						}
 					}
+					if bl := stmtList(n); bl != nil && desc == "" {
+						if kind == "swap-stmt" {
+							for k := 0; k+1 < len(*bl); k++ {
+								if hit() {
+									desc = fmt.Sprintf("%s:%d swap this statement with the next", rel, fs.Position((*bl)[k].Pos()).Line)
+									(*bl)[k], (*bl)[k+1] = (*bl)[k+1], (*bl)[k]
+									break
+								}
+							}
+						}
+						if kind == "del-stmt" || kind == "go-inline" {
+							for k, st := range *bl {
+								_, isGo := st.(*ast.GoStmt)
+								ok := false
+								switch st.(type) {
+								case *ast.IncDecStmt, *ast.GoStmt, *ast.DeferStmt, *ast.SendStmt:
+									ok = kind == "del-stmt"
+								}
+								if kind == "go-inline" {
+									ok = isGo
+								}
+								if ok && hit() {
+									if kind == "go-inline" {
+										desc = fmt.Sprintf("%s:%d go f() -> f()", rel, fs.Position(st.Pos()).Line)
+										(*bl)[k] = &ast.ExprStmt{X: st.(*ast.GoStmt).Call}
+									} else {
+										desc = fmt.Sprintf("%s:%d delete statement (%T)", rel, fs.Position(st.Pos()).Line, st)
+										(*bl)[k] = &ast.EmptyStmt{Semicolon: st.Pos()}
+									}
+									break
+								}
+							}
+						}
+					}
+					if is, ok := n.(*ast.IfStmt); ok && kind == "cond-true" && desc == "" && hit() {
+						desc = fmt.Sprintf("%s:%d if condition -> true", rel, fs.Position(is.Pos()).Line)
+						is.Cond = &ast.BinaryExpr{X: &ast.ParenExpr{X: is.Cond}, Op: token.LOR, Y: &ast.Ident{Name: "true"}}
+					}
+					if be, ok := n.(*ast.BinaryExpr); ok && kind == "mul-div" && desc == "" && (be.Op == token.MUL || be.Op == token.QUO || be.Op == token.REM) && hit() {
+						old := be.Op
+						be.Op = map[token.Token]token.Token{token.MUL: token.QUO, token.QUO: token.MUL, token.REM: token.QUO}[old]
+						desc = fmt.Sprintf("%s:%d %s -> %s", rel, fs.Position(be.Pos()).Line, old, be.Op)
+					}
 					if be, ok := n.(*ast.BinaryExpr); ok && kind == "logic" && (be.Op == token.LAND || be.Op == token.LOR) && hit() {
 						old := be.Op
 						be.Op = map[token.Token]token.Token{token.LAND: token.LOR, token.LOR: token.LAND}[old]
@@ -412,6 +475,21 @@ func genMutants(repo string, files []string, ranges map[string][][2]int, max int
 	}
 	sort.Slice(all, func(i, j int) bool { return all[i].desc < all[j].desc })
 	return all
+}
+
+// stmtList: the statement list of a block, case clause or select clause
+func stmtList(n ast.Node) *[]ast.Stmt {
+	switch x := n.(type) {
+	case *ast.BlockStmt:
+		if x != nil {
+			return &x.List
+		}
+	case *ast.CaseClause:
+		return &x.Body
+	case *ast.CommClause:
+		return &x.Body
+	}
+	return nil
 }
 
 // propertiesFile: properties.jsonl of the verif directory in use, else the one beside the checker binary's parent
